@@ -103,3 +103,86 @@ Example any_cap_examples :
   length (@glued_of (thr_of (Some 4%N)) 0%N cx_host cx_p) = 4%nat /\
   @side_okb (thr_of (Some 3%N)) cx_host cx_p = false /\ @side_okb (thr_of (Some 4%N)) cx_host cx_p = true.
 Proof. repeat split; vm_compute; reflexivity. Qed.
+
+(** ** results of the component-aware and of the fallback strategy are results of the exhaustive strategy whenever the
+    EXHAUSTIVE search is not capped ([side_ok]); nothing is asked of the component-aware search.  Proof by changing the
+    cap: under the larger cap max(cap, bound of the component-aware search) the theorem of proof/C05_AllStrat.v applies;
+    the exhaustive result is the same under both caps, and the component-aware / fallback result under the smaller cap
+    is empty or one of the results under the larger one (all-or-nothing). *)
+From SK Require Import proof.C06_Comp proof.C05_AllStrat.
+
+Section WithThr3.
+Context {TH : Thr}.
+
+Definition bigger (host : hostg) (p : prepared) : Thr :=
+  {| thr_val := N.max thr_val (comp_bound (C06_Model.monos_on (host_c06 host) (pat_c06 (p_pat p))) true (host_c06 host) (pat_c06 (p_pat p)));
+     pmax_val := pmax_val |}.
+
+Lemma glued_of_raw_eq (TH1 TH2 : Thr) strat host p : p_flag p = false ->
+  @raw_of TH1 strat host p = @raw_of TH2 strat host p -> @glued_of TH1 strat host p = @glued_of TH2 strat host p.
+Proof.
+  intros Hf E. unfold glued_of, kept_of. rewrite E. apply flat_map_ext. intros m.
+  unfold glue_all, glue_base. rewrite Hf. reflexivity.
+Qed.
+
+Lemma glued_of_raw_nil strat host p : raw_of strat host p = [] -> glued_of strat host p = [].
+Proof. intros E. unfold glued_of, kept_of. rewrite E. reflexivity. Qed.
+
+Theorem glued_subset_all_any_cap (host : hostg) (p : prepared) : side_ok host p ->
+  (forall T, In T (glued_of 1%N host p) -> exists T', In T' (glued_of 0%N host p) /\ obs_eq T T') /\
+  (forall T, In T (glued_of 2%N host p) -> exists T', In T' (glued_of 0%N host p) /\ obs_eq T T').
+Proof.
+  intros S. pose proof (so_flag _ _ S) as Hf.
+  set (B := comp_bound (C06_Model.monos_on (host_c06 host) (pat_c06 (p_pat p))) true (host_c06 host) (pat_c06 (p_pat p))).
+  (* the premises under the larger cap *)
+  assert (S' : @side_ok (bigger host p) host p).
+  { destruct S as [A1 A2 A3 A4 A5 A6 A7 A8]. constructor; try assumption. simpl. fold B. lia. }
+  assert (SC' : @side_ok_c (bigger host p) host p) by (split; [exact S'|]; simpl; fold B; lia).
+  destruct (@glued_comp_subset_all (bigger host p) host p SC') as [G1 G2].
+  (* the exhaustive strategy: the same raw matches, hence the same glued graphs, under both caps *)
+  assert (E0 : @raw_of (bigger host p) 0%N host p = raw_of 0%N host p).
+  { unfold raw_of. rewrite (@all_or_nothing_all (bigger host p)), all_or_nothing_all.
+    assert (L1 : (C06_Model.lenN (enum_all host (p_pat p)) <= thr_val)%N) by exact (so_count _ _ S).
+    assert (L2 : (C06_Model.lenN (enum_all host (p_pat p)) <= @thr_val (bigger host p))%N) by (simpl; lia).
+    apply N.ltb_ge in L1. apply N.ltb_ge in L2. rewrite L1, L2. reflexivity. }
+  pose proof (glued_of_raw_eq (bigger host p) TH 0%N host p Hf E0) as EG0.
+  assert (U1 : @raw_of (bigger host p) 1%N host p
+               = comp_unl (C06_Model.monos_on (host_c06 host) (pat_c06 (p_pat p))) true (host_c06 host) (pat_c06 (p_pat p))).
+  { unfold raw_of. apply (@matches_comp_unl (bigger host p)). simpl. fold B. lia. }
+  split.
+  - intros T HT. destruct (all_or_nothing_comp host (p_pat p)) as [E|E].
+    + rewrite (glued_of_raw_nil 1%N host p E) in HT. destruct HT.
+    + rewrite <- EG0. apply G1.
+      rewrite (glued_of_raw_eq (bigger host p) TH 1%N host p Hf); [exact HT|]. rewrite U1. symmetry. exact E.
+  - intros T HT. destruct (all_or_nothing_bt host (p_pat p)) as [E|[E|E]].
+    + rewrite (glued_of_raw_nil 2%N host p E) in HT. destruct HT.
+    + (* the limit-free component-aware result: empty (no result) or the fallback's answer under the larger cap *)
+      destruct (comp_unl (C06_Model.monos_on (host_c06 host) (pat_c06 (p_pat p))) true (host_c06 host) (pat_c06 (p_pat p))) as [|c r] eqn:Ec.
+      * rewrite (glued_of_raw_nil 2%N host p E) in HT. destruct HT.
+      * rewrite <- EG0. apply G2.
+        rewrite (glued_of_raw_eq (bigger host p) TH 2%N host p Hf); [exact HT|].
+        unfold raw_of at 1. rewrite (@matches_bt_unl (bigger host p)); [|simpl; fold B; lia|simpl; pose proof (so_count _ _ S); unfold enum_all in *; lia].
+        unfold bt_unl_result. rewrite Ec. symmetry. exact E.
+    + (* the exhaustive result itself *)
+      exists T. split; [|apply obs_eq_refl].
+      assert (E2 : raw_of 2%N host p = raw_of 0%N host p).
+      { unfold raw_of. rewrite E, all_or_nothing_all.
+        assert (L1 : (C06_Model.lenN (enum_all host (p_pat p)) <= thr_val)%N) by exact (so_count _ _ S).
+        apply N.ltb_ge in L1. rewrite L1. reflexivity. }
+      (* glue_all does not depend on the strategy when the pattern has no explicit X-H bond *)
+      assert (EG : glued_of 2%N host p = glued_of 0%N host p).
+      { unfold glued_of, kept_of. rewrite E2. apply flat_map_ext. intros m. unfold glue_all, glue_base. rewrite Hf. reflexivity. }
+      rewrite <- EG. exact HT.
+Qed.
+
+End WithThr3.
+
+(** non-vacuity of [glued_subset_all_any_cap]: cap 4 = the number of embeddings of the exhaustive search: the premise holds,
+    2 component-aware / fallback results among the 4 exhaustive ones; under cap 3 the premise fails — that is the refuted
+    scenario of proof/C05_Cap.v *)
+Example subset_results_any_cap_example :
+  @side_okb (thr_of (Some 4%N)) cx_host cx_p = true /\
+  length (@glued_of (thr_of (Some 4%N)) 1%N cx_host cx_p) = 2%nat /\ length (@glued_of (thr_of (Some 4%N)) 2%N cx_host cx_p) = 2%nat /\
+  length (@glued_of (thr_of (Some 4%N)) 0%N cx_host cx_p) = 4%nat /\
+  @side_okb (thr_of (Some 3%N)) cx_host cx_p = false.
+Proof. repeat split; vm_compute; reflexivity. Qed.
